@@ -3,4 +3,4 @@ from . import latfam, util
 
 globals().update(latfam.module('C06', util.theorems('C06'),
     'contexts as C03, labels ordered differently from positions; observation = iteration order, index, dindex, infimum, supremum, atoms and the ordered neighbour tuples; non-trivial = two concepts of equal size and a concept with >=2 upper neighbours',
-    extra_targets=['Tie/Lindig.vo', 'Tie/Matrices.vo'], partial=''))
+    extra_targets=['Tie/Lindig.vo', 'Tie/Matrices.vo'], partial='', exh=(9, 10)))
